@@ -27,7 +27,7 @@ pub struct GenParams {
 }
 
 /// StreamApi.tla models the consumer tasks (Tasks = {1, 2}): hook-level traces may contain polls by a second task.
-const MULTI_WAKER_IN_SPEC: bool = false;
+const MULTI_WAKER_IN_SPEC: bool = true;
 
 fn focus_ok(c: &RunCfg, focus: &str) -> bool {
     let concurrent = c.api.ends_with("for_each");
